@@ -1,4 +1,5 @@
 SPECIFICATION TSpec
 CONSTANTS
   MaxRank = 0
+  Variant = "none"
   MaxChain = 0
